@@ -145,8 +145,8 @@ FORMATS = {
     'gmsh41': (_file_rt('.msh', file_format='gmsh'), True, 0.0, True, False),
     'vtk': (_file_rt('.vtk'), True, 0.0, True, False),
     'vtu': (_file_rt('.vtu'), True, 0.0, True, False),
-    'vtk-ascii': (_file_rt('.vtk', binary=False), False, 1e-11, True, False),
-    'vtu-ascii': (_file_rt('.vtu', binary=False), False, 1e-11, True, False),
+    'vtk-ascii': (_file_rt('.vtk', binary=False), False, 1e-9, True, False),
+    'vtu-ascii': (_file_rt('.vtu', binary=False), False, 1e-9, True, False),
     'npz': (_npz_rt, True, 0.0, False, False),
     'dict': (_dict_rt, True, 0.0, False, True),
     'json': (_json_rt, True, 0.0, False, True),
@@ -206,7 +206,7 @@ def correspondence(ctx, gen_ok):
     from skfem.generic_utils import OrientedBoundary
     rng = np_seed(ctx, 17)
     enc_cases, dec_cases, coh_cases, sub_cases, dict_cases = [], [], [], [], []
-    nmesh = ctx.n(28, 120)
+    nmesh = ctx.n(32, 300)
     for k in range(nmesh):
         name = FIRST[k % 4]
         small = [2, 3] if name in ('MeshTri1', 'MeshQuad1') else [2, 2, 2 + (k // 4) % 2]
@@ -379,9 +379,9 @@ def oracle(ctx):
     if not meshio_ascii_gmsh_works():
         ctx.extra['excluded_variants'].append('gmsh 2.2 / 4.1 ASCII: the installed meshio cannot read back its own ASCII '
                                               '$ElementData (probed without skfem); binary variants are checked')
-    nper = ctx.n(8, 40)
+    nper = ctx.n(10, 120)
     # (1) codec directly, many oriented interfaces (this is where F7 shows)
-    ndirect = ctx.n(200, 1500)
+    ndirect = ctx.n(300, 5000)
     nbad = 0
     for k in range(ndirect):
         name = ALL[k % 8]
@@ -453,7 +453,11 @@ def run(ctx):
     if gen_ok:
         ctx.compile_dyn(['gen/C17Gen.v'] + ctx.copy_dyn())
     ctx.prove()
-    correspondence(ctx, gen_ok)
+    try:
+        correspondence(ctx, gen_ok)
+    except Exception as e:      # noqa: BLE001 — the implementation raised while the cases were generated: the oracle
+        import traceback        # below looks for the concrete input; the tie is reported as broken in any case
+        ctx.broke('correspondence', f'case generation raised {type(e).__name__}', traceback.format_exc())
     oracle(ctx)
 
 
